@@ -14,6 +14,8 @@
 (*     round index only after it has counted prevotes for exactly that     *)
 (*     block, from distinct committee members with verified credentials,   *)
 (*     reaching the quorum"                                                *)
+(*  CertOnlyAfterPrecommitQuorum  (certificate rounds) the node's own      *)
+(*     certificate vote for a block needs the precommit quorum for it      *)
 (*  CommitOnlyAfterQuorums  "it announces a commit only after precommits   *)
 (*     (and, in certificate rounds, certificate votes) for that block      *)
 (*     reach their quorums"                                                *)
@@ -25,7 +27,11 @@
 (*     header that every verifier accepts" -- the recorded verdict of the  *)
 (*     real VerifySeal on the header sealed by the real Server.commit      *)
 (* Quorum = floor(0.685*T) in exact arithmetic (interpretation note in     *)
-(* DESIGN.md section 9); certificate rounds do not occur in these traces.  *)
+(* DESIGN.md section 9).  Certificate rounds occur only in the traces of   *)
+(* the voter-level stage (driver votecert), which has no verifier: there   *)
+(* CommitVerifies is not evaluated (no "verifies" field).  A vote labelled *)
+(* msgSame whose index is not the voter's (field as = "same") is dropped   *)
+(* by the voter and cached by nobody: it counts as a lost message.         *)
 (***************************************************************************)
 EXTENDS Integers, Sequences, FiniteSets, TLC, Json
 
@@ -34,19 +40,28 @@ MaxIdx == 4
 Peers == 1..4
 K3 == {"Prevote", "Precommit", "Cert"}
 
-VARIABLES l, cur, wts, tot, dl, dln, ownv, viol, fired
-vars == <<l, cur, wts, tot, dl, dln, ownv, viol, fired>>
+VARIABLES l, cur, wts, tot, cert, dl, dln, df, ownv, viol, fired
+vars == <<l, cur, wts, tot, cert, dl, dln, df, ownv, viol, fired>>
 
 Empty == [ii \in 1..MaxIdx |-> [k \in K3 |-> [s \in Peers |-> {}]]]
-ZeroFired == [PrecommitOnlyAfterPrevoteQuorum |-> 0, CommitOnlyAfterQuorums |-> 0, EquivocatorWeightless |-> 0, CommitVerifies |-> 0]
-Init == l = 1 /\ cur = 1 /\ wts = <<0, 0, 0, 0, 0>> /\ tot = 0 /\ dl = Empty /\ dln = Empty /\ ownv = {} /\ viol = {} /\ fired = ZeroFired
+Nil == "nil"
+EmptyF == [ii \in 1..MaxIdx |-> [k \in K3 |-> [s \in Peers |-> Nil]]]
+AsSets(f) == [ii \in 1..MaxIdx |-> [k \in K3 |-> [s \in Peers |-> IF f[ii][k][s] = Nil THEN {} ELSE {f[ii][k][s]}]]]
+ZeroFired == [PrecommitOnlyAfterPrevoteQuorum |-> 0, CertOnlyAfterPrecommitQuorum |-> 0, CommitOnlyAfterQuorums |-> 0,
+              EquivocatorWeightless |-> 0, CommitVerifies |-> 0]
+Init == /\ l = 1 /\ cur = 1 /\ wts = <<0, 0, 0, 0, 0>> /\ tot = 0 /\ cert = FALSE /\ dl = Empty /\ dln = Empty /\ df = EmptyF
+        /\ ownv = {} /\ viol = {} /\ fired = ZeroFired
 
 Q(k) == IF k = "Cert" THEN (585 * tot) \div 1000 ELSE (685 * tot) \div 1000
 Wt(s) == wts[s + 1]
 Sum(S) == LET RECURSIVE F(_) F(X) == IF X = {} THEN 0 ELSE LET x == CHOOSE y \in X : TRUE IN Wt(x) + F(X \ {x}) IN F(S)
 Entitled(d, o, ii, k, b) == { s \in Peers : d[ii][k][s] = {b} } \cup (IF <<ii, k, b>> \in o THEN {0} ELSE {})
 DQ(d, o, ii, k, b) == Sum(Entitled(d, o, ii, k, b))
-Disc(strict, lenient) == IF strict THEN {} ELSE IF lenient THEN {{"equivocator_future_vote"}} ELSE {{"no_quorum"}}
+\* equivocator_future_vote: the quorum exists without the certificate votes delivered while their index was in the future;
+\* equivocation_after_quorum: it exists when every sender counts with its FIRST delivered vote (it was complete once and a
+\* sender voted for a second block afterwards); no_quorum: otherwise
+Disc(strict, lenient, firsts) == IF strict THEN {} ELSE IF lenient THEN {{"equivocator_future_vote"}}
+                                 ELSE IF firsts THEN {{"equivocation_after_quorum"}} ELSE {{"no_quorum"}}
 SetOf(q) == { q[n] : n \in DOMAIN q }
 
 Step ==
@@ -54,28 +69,40 @@ Step ==
    /\ l' = l + 1
    /\ LET e == TraceLog[l] IN
       IF e.ev \in {"reset", "abort"}
-      THEN /\ cur' = 1 /\ dl' = Empty /\ dln' = Empty /\ ownv' = {} /\ UNCHANGED <<wts, tot, viol, fired>>
+      THEN /\ cur' = 1 /\ dl' = Empty /\ dln' = Empty /\ df' = EmptyF /\ ownv' = {} /\ cert' = FALSE /\ UNCHANGED <<wts, tot, viol, fired>>
       ELSE
-      LET ok  == e.ev = "Recv" /\ e.cred = "ok" /\ e.k \in K3 /\ e.i \in 1..MaxIdx
+      LET as  == IF "as" \in DOMAIN e THEN e.as ELSE "judged"
+          \* a vote labelled msgSame for another index than the voter's is dropped and cached by nobody: a lost message
+          ok  == e.ev = "Recv" /\ e.cred = "ok" /\ e.k \in K3 /\ e.i \in 1..MaxIdx /\ ~(as = "same" /\ e.i # cur)
           d   == IF ok THEN [dl EXCEPT ![e.i][e.k][e.s] = @ \cup {e.b}] ELSE dl
           dn  == IF ok /\ (e.i <= cur \/ e.k # "Cert") THEN [dln EXCEPT ![e.i][e.k][e.s] = @ \cup {e.b}] ELSE dln
+          f   == IF ok /\ df[e.i][e.k][e.s] = Nil THEN [df EXCEPT ![e.i][e.k][e.s] = e.b] ELSE df
+          fs  == AsSets(f)
           own == ownv \cup { <<x.i, x.k, x.b>> : x \in SetOf(e.sent) }
           pcs == { x \in SetOf(e.sent) : x.k = "Precommit" }
+          cts == { x \in SetOf(e.sent) : x.k = "Cert" }
           cms == SetOf(e.commits)
+          isCert == IF e.ev = "Cfg" THEN e.cert ELSE cert
+          QP(x, c) == DQ(x, own, c.i, "Precommit", c.b) >= Q("Precommit") /\ (isCert => DQ(x, own, c.i, "Cert", c.b) >= Q("Cert"))
+          PK(x, c) == /\ SetOf(c.pre) \subseteq Entitled(x, own, c.i, "Precommit", c.b)
+                      /\ (isCert => SetOf(c.cert) \subseteq Entitled(x, own, c.i, "Cert", c.b))
           v1 == UNION { { <<"PrecommitOnlyAfterPrevoteQuorum", dd, l>> :
-                            dd \in Disc(DQ(d, own, x.i, "Prevote", x.b) >= Q("Prevote"), DQ(dn, own, x.i, "Prevote", x.b) >= Q("Prevote")) } : x \in pcs }
-          v2 == UNION { { <<"CommitOnlyAfterQuorums", dd, l>> :
-                            dd \in Disc(DQ(d, own, c.i, "Precommit", c.b) >= Q("Precommit"), DQ(dn, own, c.i, "Precommit", c.b) >= Q("Precommit")) } : c \in cms }
-          v3 == UNION { { <<"EquivocatorWeightless", dd, l>> :
-                            dd \in Disc(SetOf(c.pre) \subseteq Entitled(d, own, c.i, "Precommit", c.b),
-                                        SetOf(c.pre) \subseteq Entitled(dn, own, c.i, "Precommit", c.b)) } : c \in cms }
-          v4 == { <<"CommitVerifies", IF c.sealed THEN {"verifier_rejects"} ELSE {"not_sealed"}, l>> : c \in { x \in cms : ~x.verifies } }
-      IN /\ dl' = d /\ dln' = dn /\ ownv' = own
-         /\ viol' = viol \cup v1 \cup v2 \cup v3 \cup v4
+                            dd \in Disc(DQ(d, own, x.i, "Prevote", x.b) >= Q("Prevote"), DQ(dn, own, x.i, "Prevote", x.b) >= Q("Prevote"),
+                                        DQ(fs, own, x.i, "Prevote", x.b) >= Q("Prevote")) } : x \in pcs }
+          v5 == UNION { { <<"CertOnlyAfterPrecommitQuorum", dd, l>> :
+                            dd \in Disc(DQ(d, own, x.i, "Precommit", x.b) >= Q("Precommit"), DQ(dn, own, x.i, "Precommit", x.b) >= Q("Precommit"),
+                                        DQ(fs, own, x.i, "Precommit", x.b) >= Q("Precommit")) } : x \in cts }
+          v2 == UNION { { <<"CommitOnlyAfterQuorums", dd, l>> : dd \in Disc(QP(d, c), QP(dn, c), QP(fs, c)) } : c \in cms }
+          v3 == UNION { { <<"EquivocatorWeightless", dd, l>> : dd \in Disc(PK(d, c), PK(dn, c), PK(fs, c)) } : c \in cms }
+          v4 == { <<"CommitVerifies", IF c.sealed THEN {"verifier_rejects"} ELSE {"not_sealed"}, l>> :
+                     c \in { x \in cms : "verifies" \in DOMAIN x /\ ~x.verifies } }
+      IN /\ dl' = d /\ dln' = dn /\ df' = f /\ ownv' = own /\ cert' = isCert
+         /\ viol' = viol \cup v1 \cup v2 \cup v3 \cup v4 \cup v5
          /\ fired' = [fired EXCEPT !.PrecommitOnlyAfterPrevoteQuorum = @ + Cardinality(pcs),
+                                   !.CertOnlyAfterPrecommitQuorum = @ + Cardinality(cts),
                                    !.CommitOnlyAfterQuorums = @ + Cardinality(cms),
                                    !.EquivocatorWeightless = @ + Cardinality(cms),
-                                   !.CommitVerifies = @ + Cardinality(cms)]
+                                   !.CommitVerifies = @ + Cardinality({ x \in cms : "verifies" \in DOMAIN x })]
          /\ cur' = e.obs.i
          /\ IF e.ev = "Cfg" THEN wts' = e.w /\ tot' = e.T ELSE UNCHANGED <<wts, tot>>
 
